@@ -151,6 +151,13 @@ Theorem C06_holds : forall k, valid k -> holds k (run_model k) = [].
 Proof. exact holds_run_model. Qed.
 Print Assumptions C06_holds.
 
+(* the driver's `covered` flag (5th item of C06.Entry.entry's answer) implies the hypotheses of C06_holds *)
+Lemma C06_validb_valid k : validb k = true -> valid k.
+Proof. unfold validb, valid. intros H. now apply negb_true_iff in H. Qed.
+Theorem C06_covered_cases : forall k, validb k = true -> holds k (run_model k) = [].
+Proof. intros k H. apply C06_holds. now apply C06_validb_valid. Qed.
+Print Assumptions C06_covered_cases.
+
 (* ---- the behaviour before commit da63d9a (D10: "%2f" compared case-sensitively) violates parity ---- *)
 Definition cfg_a : config :=
   {| c_request_path := [SL; 97]; c_filemode := true; c_target := [SL; 102]; c_suffix := [];
